@@ -61,7 +61,10 @@ Record config := mkConfig {
   priors : list (nat * (Z * Z));      (* initial Prior objects: (id, (lower, upper)) *)
   cleanup : bool;                     (* does the recursion wrapper clean up on exceptions? *)
   dthaws : bool;                      (* does gaussian_prior_model_for_arguments unfreeze `self`? *)
-  itransfers : bool }.                (* does Collection.__setitem__ write the replaced value's id into the assigned object? *)
+  itransfers : bool;                  (* does Collection.__setitem__ write the replaced value's id into the assigned object? *)
+  gdel : bool;                        (* proposed C13-delattr-guard: __delattr__ (and Collection.remove) are assert_not_frozen *)
+  gtuple : bool;                      (* proposed C13-tuple-prior-frozen: a TuplePrior is frozen / thawed with its owner *)
+  epochs : bool }.                    (* proposed C13-cache-modification-count: caches are dropped once any model was modified *)
 
 (* /repo since 5afd9f1: try/finally in DynamicRecursionCache.__call__ *)
 Definition wrapper_cleanup : bool := true.
@@ -71,6 +74,10 @@ Definition derive_thaws : bool := false.
 (* /repo since 6df133a: Collection.__setitem__ transfers the id only to a freshly built object, never to an
    object handed in by the caller (the pinned code wrote it into any assigned object: true) *)
 Definition setitem_transfers : bool := false.
+(* the three proposed repairs of the remaining findings: not applied to /repo (flip to true when they are) *)
+Definition delattr_guarded : bool := false.
+Definition tuples_frozen : bool := false.
+Definition cache_counts_modifications : bool := false.
 
 Definition FUEL : nat := 12.
 
@@ -620,12 +627,33 @@ Definition modify (o : nat) (f : obj -> obj) : M unit :=
             | None => (st, Ok tt)
             end.
 
-Fixpoint freeze (n : nat) (o : nat) : M unit :=
+Definition is_tuple (st : state) (t : nat) : bool :=
+  match view st t with Some (KTuple, _) => true | _ => false end.
+
+(* AbstractModel._set_tuple_priors_frozen (proposed repair, gtuple): the TuplePriors in self.__dict__ *)
+Definition freeze_tuples (cfg : config) (o : nat) : M unit :=
+  if gtuple cfg then
+    vw <- gets (fun st => view st o) ;;
+    match vw with
+    | Some (_, attrs) =>
+        _ <- mapM (fun kv : string * value =>
+                     match snd kv with
+                     | VRef t => k <- gets (fun st => is_tuple st t) ;;
+                                 if k then modify t (fun tb => with_frozen tb true) else ret tt
+                     | _ => ret tt
+                     end) attrs ;;
+        ret tt
+    | None => ret tt
+    end
+  else ret tt.
+
+Fixpoint freeze (cfg : config) (n : nat) (o : nat) : M unit :=
   match n with
   | 0 => raise EOther
   | S n' =>
       c <- call_direct o DAbstractModel ;; l <- as_list c ;;
-      _ <- mapM (fun it : item => if Nat.eqb (item_oid it) o then ret tt else freeze n' (item_oid it)) l ;;
+      _ <- mapM (fun it : item => if Nat.eqb (item_oid it) o then ret tt else freeze cfg n' (item_oid it)) l ;;
+      _ <- freeze_tuples cfg o ;;
       modify o (fun ob => with_frozen ob true)
   end.
 
@@ -633,8 +661,13 @@ Fixpoint freeze (n : nat) (o : nat) : M unit :=
    no exception can occur, hence a plain state function *)
 Definition pm_children (st : state) (l : list (string * value)) : list nat :=
   map item_oid (direct_items st DAbstractModel l).
+Definition tuple_children (st : state) (l : list (string * value)) : list nat :=
+  flat_map (fun kv : string * value => match snd kv with VRef t => if is_tuple st t then [t] else [] | _ => [] end) l.
+(* (a TuplePrior has no cache; resetting the field keeps "unfrozen objects have empty caches" syntactic) *)
+Definition thaw_tuple (st : state) (t : nat) : state :=
+  match get st t with Some tb => put st t (with_cache (with_frozen tb false) []) | None => st end.
 
-Fixpoint unfreeze_st (n : nat) (o : nat) (st : state) : state :=
+Fixpoint unfreeze_st (cfg : config) (n : nat) (o : nat) (st : state) : state :=
   match n with
   | 0 => st
   | S n' =>
@@ -642,15 +675,28 @@ Fixpoint unfreeze_st (n : nat) (o : nat) (st : state) : state :=
       | None => st
       | Some ob =>
           let st1 := put st o (with_frozen ob false) in
-          let st2 := fold_left (fun s c => if Nat.eqb c o then s else unfreeze_st n' c s)
+          let st2 := fold_left (fun s c => if Nat.eqb c o then s else unfreeze_st cfg n' c s)
                                (pm_children st1 (oattrs ob)) st1 in
-          match get st2 o with
-          | Some ob2 => put st2 o (with_cache ob2 [])
-          | None => st2
+          let st3 := if gtuple cfg then fold_left thaw_tuple (tuple_children st2 (oattrs ob)) st2 else st2 in
+          match get st3 o with
+          | Some ob3 => put st3 o (with_cache ob3 [])
+          | None => st3
           end
       end
   end.
-Definition unfreeze (n : nat) (o : nat) : M unit := fun st => (unfreeze_st n o st, Ok tt).
+Definition unfreeze (cfg : config) (n : nat) (o : nat) : M unit := fun st => (unfreeze_st cfg n o st, Ok tt).
+
+(* proposed repair `epochs`: every accepted modification of any model invalidates every frozen cache
+   (lazily in the code, through a process-wide counter; eagerly here -- caches are only observable
+   through later queries) *)
+Definition clear_all (st : state) : state :=
+  mkState (map (fun ob => with_cache ob []) (heap st)) (inflight st) (ptab st).
+Definition bump (cfg : config) (counts : bool) (c : M unit) : M unit :=
+  fun st => let (st1, r) := c st in
+            match r with
+            | Ok _ => ((if epochs cfg && counts then clear_all st1 else st1), r)
+            | Exn _ => (st1, r)
+            end.
 
 (* ------------------------------------------------------------------ modification *)
 Definition frozen_pm (st : state) (v : value) : bool :=
@@ -668,7 +714,9 @@ Definition op_set (cfg : config) (o : nat) (name : string) (v : value) : M unit 
   | None => raise EAttribute
   | Some ob =>
       match okind ob with
-      | KTuple => modify o (fun ob => with_attrs ob (set_attr name v (oattrs ob)))
+      | KTuple =>
+          if gtuple cfg && ofrozen ob then raise EAssertion
+          else modify o (fun ob => with_attrs ob (set_attr name v (oattrs ob)))
       | KColl =>
           if ofrozen ob then raise EAssertion
           else modify o (fun ob => with_attrs ob (set_attr name v (oattrs ob)))
@@ -687,7 +735,10 @@ Definition op_set (cfg : config) (o : nat) (name : string) (v : value) : M unit 
               | it :: _ =>
                   if smemb name (ctor_names cfg cls)
                   then modify o (fun ob => with_attrs ob (set_attr name v (oattrs ob)))
-                  else modify (item_oid it) (fun tb => with_attrs tb (set_attr name v (oattrs tb)))
+                  else
+                    tf <- gets (fun st => match get st (item_oid it) with Some tb => ofrozen tb | None => false end) ;;
+                    if gtuple cfg && tf then raise EAssertion
+                    else modify (item_oid it) (fun tb => with_attrs tb (set_attr name v (oattrs tb)))
               | [] => modify o (fun ob => with_attrs ob (set_attr name v (oattrs ob)))
               end
             else modify o (fun ob => with_attrs ob (set_attr name v (oattrs ob)))
@@ -710,11 +761,16 @@ Definition op_append (o : nat) (v : value) : M unit :=
   end.
 
 (* delattr(obj, name): object.__delattr__, no frozen check anywhere *)
-Definition op_del (o : nat) (name : string) : M unit :=
+(* which objects have an assert_not_frozen __delattr__: none today; Model / Collection with the proposed gdel,
+   TuplePrior with the proposed gtuple *)
+Definition del_guarded (cfg : config) (k : kind) : bool :=
+  match k with KTuple => gtuple cfg | _ => gdel cfg end.
+Definition op_del (cfg : config) (o : nat) (name : string) : M unit :=
   ob <- gets (fun st => get st o) ;;
   match ob with
   | None => raise EAttribute
   | Some ob =>
+      if del_guarded cfg (okind ob) && ofrozen ob then raise EAssertion else
       match sassoc name (oattrs ob) with
       | None => raise EAttribute
       | Some _ => modify o (fun ob => with_attrs ob (del_attr name (oattrs ob)))
@@ -844,7 +900,7 @@ Fixpoint derive (cfg : config) (n : nat) (idf : nat -> nat) (a : list nat) (o : 
                        end) attrs ;;
           ret tt
       | Some (KModel _, _) =>
-          _ <- (if dthaws cfg then unfreeze FUEL o else ret tt) ;;
+          _ <- (if dthaws cfg then unfreeze cfg FUEL o else ret tt) ;;
           (* the code reads self.direct_prior_tuples, tuple_prior_tuples, direct_instance_tuples and
              direct_prior_model_tuples: frozen_cache functions (cached when `self` is still frozen) *)
           pc <- call_direct o DPrior ;; pl <- as_list pc ;;
@@ -885,18 +941,23 @@ Inductive op :=
 
 Definition unit_ans (c : M unit) : M answer := _ <- c ;; ret AUnit.
 
+(* does a successful setattr / delattr on object o pass through an assert_not_frozen wrapper? *)
+Definition counted_target (cfg : config) (st : state) (o : nat) : bool :=
+  match get st o with Some ob => is_pm_kind (okind ob) || gtuple cfg | None => false end.
+
 Definition step (cfg : config) (x : op) : M answer :=
   match x with
-  | ONew k a ni => unit_ans (op_new k a ni)
+  | ONew k a ni => unit_ans (bump cfg true (op_new k a ni))
   | OQuery o q => run_query cfg o q
-  | OFreeze o => unit_ans (freeze FUEL o)
-  | OUnfreeze o => unit_ans (unfreeze FUEL o)
-  | OSet o name v => unit_ans (op_set cfg o name v)
-  | OSetItem o key v => unit_ans (op_setitem cfg o key v)
+  | OFreeze o => unit_ans (freeze cfg FUEL o)
+  | OUnfreeze o => unit_ans (unfreeze cfg FUEL o)
+  | OSet o name v => unit_ans (fun st => bump cfg (counted_target cfg st o) (op_set cfg o name v) st)
+  | OSetItem o key v => unit_ans (bump cfg true (op_setitem cfg o key v))
   | ODerive o => unit_ans (op_derive cfg o)
-  | OAppend o v => unit_ans (op_append o v)
-  | ODel o name => unit_ans (op_del o name)
-  | OCopy o => unit_ans (op_copy o)
+  | OAppend o v => unit_ans (bump cfg true (op_append o v))
+  | ODel o name => unit_ans (fun st => bump cfg (match get st o with Some ob => del_guarded cfg (okind ob) | None => false end)
+                                            (op_del cfg o name) st)
+  | OCopy o => unit_ans (bump cfg true (op_copy o))
   | OFailWalk o => unit_ans (op_failwalk cfg o)
   end.
 
@@ -954,7 +1015,8 @@ Inductive case := Case (classes : list (list string)) (priors : list (nat * (Z *
 Definition check_case (c : case) : bool :=
   match c with
   | Case cl pr ops outs fz =>
-      let cfg := mkConfig cl pr wrapper_cleanup derive_thaws setitem_transfers in
+      let cfg := mkConfig cl pr wrapper_cleanup derive_thaws setitem_transfers delattr_guarded tuples_frozen
+                          cache_counts_modifications in
       let (st, got) := run cfg ops (init cfg) in
       list_eqb outcome_eqb got outs && list_eqb Bool.eqb (map ofrozen (heap st)) fz
   end.
